@@ -101,7 +101,7 @@ func Main(prop string) {
 		}
 		if batch == "s-0" {
 			// fixed hand-written sessions (regressions)
-			for _, name := range map[string][]string{"C08": {"control", "priority-behind-negative-window"}, "C09": {"max-frame-size-lowered-with-queued-data"}}[prop] {
+			for _, name := range map[string][]string{"C08": {"control", "priority-behind-negative-window", "push-promise-continuation", "headers-empty-first-fragment", "two-table-size-updates"}, "C09": {"max-frame-size-lowered-with-queued-data"}}[prop] {
 				c := Case{Kind: "session", Stream: strings.ToLower(prop) + "-probe", Pf: z.Pf, Probe: name}
 				r.Case(c)
 				RunCase(r, c, false)
